@@ -168,10 +168,10 @@ func c13Gen(t *rapid.T) c13Case {
 	c.Opts.Normalize = rapid.Bool().Draw(t, "normalize")
 	c.Opts.FollowDir = rapid.Bool().Draw(t, "followdirs")
 	c.Opts.Excludes = rapid.SampledFrom([][]string{nil, nil, {"*.skip"}, {"ignored.txt"}, {"*.skip", "ignored.txt"}}).Draw(t, "excludes")
-	c.Opts.Strips = rapid.SampledFrom([][]string{nil, nil, {"sub/"}, {"sub"}, {"@ROOT@/"}, {"@ROOT@"}, {"a/", "b/"}, {"sub/deep/", "sub/"}, {"other/", "sub/"}}).Draw(t, "strips")
+	c.Opts.Strips = rapid.SampledFrom([][]string{nil, nil, {"sub/"}, {"sub"}, {"@ROOT@/"}, {"@ROOT@"}, {"a/", "b/"}, {"sub/deep/", "sub/"}, {"other/", "sub/"}, {"sub/", "deep/"}, {"sub/", "deep/", "er/"}, {"@ROOT@/", "sub/"}}).Draw(t, "strips")
 	c.Mode = rapid.SampledFrom([]string{"record", "record", "record", "run", "startstop", "match"}).Draw(t, "mode")
 	if c.Mode != "record" {
-		ops := []string{"w:new.txt:created\r\n", "w:sub/new2:x", "a:f1:appended", "rm:f1", "rm:sub", "w:f2.txt:rewritten", "mk:emptydir", "ln:f1:newlink", "w:x.skip:skipme", "rm:data.bin"}
+		ops := []string{"rw:f1", "rw:sub/f1", "rw:f2.txt", "rw:data.bin", "w:new.txt:created\r\n", "w:sub/new2:x", "a:f1:appended", "rm:f1", "rm:sub", "w:f2.txt:rewritten", "mk:emptydir", "ln:f1:newlink", "w:x.skip:skipme", "rm:data.bin"}
 		c.Script = rapid.SliceOfN(rapid.SampledFrom(ops), 0, 3).Draw(t, "script")
 		c.Exit = rapid.SampledFrom([]int{0, 0, 0, 1, 3, 255}).Draw(t, "exit")
 		if c.Mode == "match" {
